@@ -11,6 +11,7 @@ import (
 	"io"
 	"io/fs"
 	"os"
+	"sort"
 	"strconv"
 	"syscall"
 
@@ -197,7 +198,13 @@ func ReadDir(name string) ([]DirEntry, error) {
 	if sched.Point("readdir " + name) {
 		return nil, errKilled
 	}
-	return os.ReadDir(name)
+	ents, err := os.ReadDir(name)
+	if sched.Active() && len(ents) > 1 {
+		// entries named by random ids (upload ids, version ids, temp names) would otherwise be
+		// visited in an order that differs from one replay to the next: order by the masked name
+		sort.SliceStable(ents, func(i, j int) bool { return sched.Canon(ents[i].Name()) < sched.Canon(ents[j].Name()) })
+	}
+	return ents, err
 }
 
 // ReadFile = open + read-to-EOF (two steps).
